@@ -383,6 +383,12 @@ func SharedCacheWrites(p *Program) (writes []SharedWrite, lists int) {
 			}
 		}
 	}
+	lastParamWrites = map[*ssa.Function]map[int]string{}
+	for fn, sm := range a.sums {
+		if len(sm.mutatesParam) > 0 {
+			lastParamWrites[fn] = sm.mutatesParam
+		}
+	}
 	// report
 	for _, fn := range funcs {
 		roots := a.noCopyLists(fn, optTainted)
@@ -431,6 +437,21 @@ func SharedCacheWrites(p *Program) (writes []SharedWrite, lists int) {
 		}
 	}
 	return writes, lists
+}
+
+var lastParamWrites map[*ssa.Function]map[int]string
+var lastParamWritesFor *Program
+
+// ParamWriteThroughs: for every repository function, the parameters (by index, receiver first)
+// through which it writes into memory the caller's object shares — a map update, a slice element
+// store, a store through a pointer field — directly or by handing the object to a callee that
+// does; a DeepCopy() in between clears the derivation, a shallow struct copy does not.
+func ParamWriteThroughs(p *Program) map[*ssa.Function]map[int]string {
+	if lastParamWritesFor != p {
+		SharedCacheWrites(p)
+		lastParamWritesFor = p
+	}
+	return lastParamWrites
 }
 
 // unwrapSynthetic resolves promoted-method wrappers and bound-method thunks to the declared method.
